@@ -60,6 +60,7 @@ def run(ctx, rep):
         for _ in range(ctx.n(4, 40)):
             cases.append((version, {"extra": "none", "seg": "whole", "gap_ms": 0, "idle_push": rand_state(rng)}, rand_state(rng), 123456))
             cases.append((version, {"extra": "none", "seg": "whole", "gap_ms": 0, "idle_push": rand_state(rng), "drop": 1}, rand_state(rng), 123456))
+            cases.append((version, {"extra": "none", "seg": "whole", "gap_ms": 0, "local_edit": rand_state(rng)}, rand_state(rng), 123456))
         base = {"extra": "none", "seg": "whole", "gap_ms": 0}
         for tgt in (26, 27, 32, 33, 61, 62, 63, 86, 87):
             s = rand_state(rng); s["target"] = tgt
@@ -114,6 +115,10 @@ def run(ctx, rep):
                      {"phase": "unsolicited report while idle, state changed by another client, refresh", "read": ip["read"],
                       "reference_reading_of_device_state": ip["expected"], "exchange_returned_a_current_report": ip["got_current_report"],
                       "failure": "refresh-differs-from-device"})
+        le = obs.get("local_edit")
+        if le and le["read"] != le["expected"]:
+            rep.fail("oracle", k2 or "refresh-differs-from-device:after-unapplied-local-changes", inp,
+                     {"read": le["read"], "reference_reading_of_device_state": le["expected"]})
         if obs["rejected_frames"]:
             fail("frame-rejected-by-reference-parser", {"count": obs["rejected_frames"]})
     rep.sample({"version": cases[0][0], "plan": cases[0][1], "state": cases[0][2]})
